@@ -261,13 +261,13 @@ impl<'a> Exec<'a> {
         // ---- model refinement with attribution
         let mut v = Vec::new();
         refine(kind, data, spec.cfg, &obs, mst, msize, &mout, &mut v);
-        for p in [2usize, 6, 7, 8, 9, 10, 11, 14, 17] {
+        for p in [2usize, 3, 6, 7, 8, 9, 10, 11, 14, 17] {
             let relevant = match p {
                 6 => kind == Kind::Req,
                 7 => kind == Kind::Resp,
                 9 => kind == Kind::Chunk,
                 8 | 14 | 10 => kind != Kind::Chunk,
-                17 => false, // counted by M-store
+                17 | 3 => false, // counted by M-store / M-frame
                 _ => true,
             };
             if relevant {
